@@ -48,6 +48,17 @@ Write(l, v) ==
        /\ fresh' = p[3] /\ fault' = FaultAfter /\ oarmed' = OarmedAfter
        /\ hist' = Append(hist, [act |-> "write", lba |-> l, val |-> v, out |-> p[1], data |-> 0])
     /\ UNCHANGED <<node, exported>>
+\* the caller keeps ONE write command object and the buffer it was built with: it refills the buffer in place,
+\* re-encodes the CDB for block l (cmd.cdb = cmd.build_cdb(...)) and hands the object to the facade's execute - to
+\* the target a WRITE like any other, of what the buffer holds NOW
+Rewrite(l, v) ==
+    /\ Room
+    /\ LET p == Path IN
+       /\ disk' = IF p[2] THEN [disk EXCEPT ![l] = v] ELSE disk
+       /\ mine' = IF p[1] = "ok" THEN [mine EXCEPT ![l] = v] ELSE mine
+       /\ fresh' = p[3] /\ fault' = FaultAfter /\ oarmed' = OarmedAfter
+       /\ hist' = Append(hist, [act |-> "rewrite", lba |-> l, val |-> v, out |-> p[1], data |-> 0])
+    /\ UNCHANGED <<node, exported>>
 \* WRITE SAME(10) with NUMBER OF LOGICAL BLOCKS 0: every block from l to the end of the medium (SBC-3 5.43)
 Fill(l, v) ==
     /\ Room
@@ -106,7 +117,7 @@ Export == /\ Len(hist) = MaxLen /\ ~exported
           /\ PrintT(<<"BEHAVIOUR", ToJson([detect |-> Detect, tr |-> Tr, steps |-> hist])>>)
           /\ exported' = TRUE /\ UNCHANGED <<node, fresh, disk, mine, fault, oarmed, hist>>
 
-Next == \/ \E l \in LBAs, v \in Vals : Write(l, v) \/ Fill(l, v)
+Next == \/ \E l \in LBAs, v \in Vals : Write(l, v) \/ Fill(l, v) \/ Rewrite(l, v)
         \/ \E l \in LBAs : Read(l) \/ Reread(l) \/ Zero(l)
         \/ Reattach
         \/ \E a \in {"replug", "unplug", "plug"} : Env(a)
@@ -119,5 +130,5 @@ Spec == Init /\ [][Next]_vars
 \* a successful one arrived, whatever happened to the node in between
 SameMedium == mine = disk
 \* with detection on, a command that succeeded went through a handle of the node now at the path
-FreshAfterSuccess == (Detect /\ hist # <<>> /\ hist[Len(hist)].act \in {"read", "reread", "write", "fill", "zero", "reattach"} /\ hist[Len(hist)].out = "ok") => fresh
+FreshAfterSuccess == (Detect /\ hist # <<>> /\ hist[Len(hist)].act \in {"read", "reread", "write", "rewrite", "fill", "zero", "reattach"} /\ hist[Len(hist)].out = "ok") => fresh
 =============================================================================
